@@ -152,7 +152,7 @@ func checkC17(c *Ctx) {
 			}
 			for _, conj := range PathConds(pr) {
 				all := append(append([]string{}, conj...), edge...)
-				if !(containsS(all, "!allowEmpty") && containsS(all, "Len(w.buff) <= 0")) {
+				if !(containsS(all, "!allowEmpty") && containsS(all, "Len(w.buff) == 0")) {
 					skipOK = false
 				}
 			}
@@ -178,7 +178,7 @@ func checkC17(c *Ctx) {
 	} else {
 		ok, cex := AllDisjunctsHave(PathConds(direct.Block()), func(s string) bool { return s == "Len(w.buff) == 0" })
 		c.Check(ok && Desc(Args(direct.(ssa.CallInstruction))[1]) == "line[:"+idxD+"]", "R17.4", wl.String(), "fast-path-only-when-empty", direct.Pos(), "the line is logged directly only when nothing is buffered (counter-example %v), and it is line[:idx]", cex)
-		c.Check(Dominates(app, flushCall) && Desc(Args(app.(ssa.CallInstruction))[1]) == "line[:"+idxD+"]" && containsS(AtomStrings(Guards(flushCall)), "Len(w.buff) != 0"), "R17.4", wl.String(), "append-before-flush", app.Pos(), "with buffered text the fragment up to the newline is appended first, then the whole line is flushed")
+		c.Check(Dominates(app, flushCall) && Desc(Args(app.(ssa.CallInstruction))[1]) == "line[:"+idxD+"]" && containsS(AtomStrings(Guards(flushCall)), "Len(w.buff) > 0"), "R17.4", wl.String(), "append-before-flush", app.Pos(), "with buffered text the fragment up to the newline is appended first, then the whole line is flushed")
 		// exactly one of the two on every newline path
 		_, t, _ := BranchOn(wl, idxD+" >= 0")
 		okOne := t != nil && !ExistsPath(wl, AtBlock(t), IsReturn, func(i ssa.Instruction) bool { return i == direct || i == flushCall })
